@@ -132,7 +132,17 @@ namespace embedded_pairing::bls12_381 {
                     return false;
                 }
             }
-            return g.is_in_correct_subgroup_assuming_on_curve();
+            if (!g.is_in_correct_subgroup_assuming_on_curve()) {
+                return false;
+            }
+
+            /*
+             * Accept only the canonical encoding of the point: coordinates
+             * reduced below q, and no stray bits in the flag positions.
+             */
+            Encoding<Affine, compressed> canonical;
+            canonical.encode(g);
+            return memcmp(canonical.data, this->data, sizeof(this->data)) == 0;
         }
 
         return true;
